@@ -52,6 +52,24 @@ def getDataset (j : Json) : Except String (Dataset Rat) := do
   pure { mask := m, kernel := K, data := d, noise := nz }
 
 def matToJson (M : Mat Rat) : Json := ratMatToJson M.toLists
+
+def paddedToJson (p : Impl.Padded Rat) : Json :=
+  obj [("data_to_pix_unique", listToJson intsToJson p.idx), ("data_weights", ratMatToJson p.val),
+       ("pix_lengths", natsToJson p.len)]
+
+def getPadded (j : Json) : Except String (Impl.Padded Rat) := do
+  pure { idx := ← getList getInts (← field j "data_to_pix_unique")
+         val := ← getRatMat (← field j "data_weights")
+         len := ← getNats (← field j "pix_lengths") }
+
+def flatToJson (q : Impl.PreloadFlat Rat) : Json :=
+  obj [("curvature_preload", ratsToJson q.preload), ("curvature_indexes", natsToJson q.indexes),
+       ("curvature_lengths", natsToJson q.lengths)]
+
+def getFlat (j : Json) : Except String (Impl.PreloadFlat Rat) := do
+  pure { preload := ← getRats (← field j "curvature_preload")
+         indexes := ← getNats (← field j "curvature_indexes")
+         lengths := ← getNats (← field j "curvature_lengths") }
 def vecToJson (v : Vec Rat) : Json := ratsToJson v.toList
 
 /-- exact solution of `A x = b` by Gauss–Jordan elimination with first-non-zero pivoting
@@ -92,8 +110,17 @@ def inversion : Op := fun j => do
   let n := (Impl.nativeForSlim ds.mask).length
   let opList := Impl.operatedList ds objs
   let B := Impl.operatedMappingMatrix ds objs
-  let D := if wt then Impl.dataVectorWT ds objs else Impl.dataVectorMap ds objs
-  let F := if wt then Impl.curvatureWT ds objs eps else Impl.curvatureMap ds objs eps
+  -- the w-tilde side runs the transliterated dispatcher (`none` = the Python would fail on `None`)
+  let D ← if wt then
+      match Impl.dataVectorWTDispatchP ds objs with
+      | some v => pure v
+      | none => throw "no_mapper"
+    else pure (Impl.dataVectorMap ds objs)
+  let F ← if wt then
+      match Impl.curvatureWTDispatchP ds objs eps with
+      | some m => pure m
+      | none => throw "no_mapper"
+    else pure (Impl.curvatureMap ds objs eps)
   let mut out : List (String × Json) :=
     [("formalism", Json.str (if wt then "w_tilde" else "mapping")),
      ("operated_mapping_matrix", matToJson B),
@@ -114,7 +141,7 @@ def inversion : Op := fun j => do
         if wt then
           match o with
           | .mapper t _ =>
-            (Impl.convolveNoBlurring fr (Impl.mappedViaUnique (Impl.uniqueFrom t n) so).toList).toList
+            (Impl.convolveNoBlurring fr (Impl.mappedViaUniqueP (Impl.uniqueFromPadded t n) so).toList).toList
           | .funcList _ _ _ => (Impl.mappedViaMatrix Bo so).toList
         else (Impl.mappedViaMatrix Bo so).toList
       let total := parts.foldl (fun acc p => (acc.zip p).map fun (a, b) => a + b)
@@ -140,11 +167,22 @@ def wtildeUtils : Op := fun j => do
     match (← getObj mj) with
     | .mapper t _ =>
       let U := Impl.uniqueFrom t n
-      out := out ++ [("unique", rowsToJson U),
+      out := out ++ [("unique_stored", paddedToJson (Impl.uniqueFromPadded t n)),
+        ("preload_stored", flatToJson (Impl.wTildePreloadFlatOf ds)),
+        ("unique", rowsToJson U),
         ("mapping_matrix", matToJson (Impl.mappingMatrixFrom t n)),
         ("data_vector", vecToJson (Impl.dataVectorWTilde wtd U t.pixels)),
         ("curvature", matToJson (Impl.curvatureFromPreload pre U t.pixels))]
     | _ => throw "expected mapper"
+  -- consume the tables exactly as the implementation returned them
+  match (j.getObjVal? "impl_unique").toOption, (j.getObjVal? "impl_preload").toOption with
+  | some uj, some pj =>
+    let p ← getPadded uj
+    let q ← getFlat pj
+    let pix ← getNat (← field j "pix_pixels")
+    out := out ++ [("data_vector_from_impl_tables", vecToJson (Impl.dataVectorWTildeP wtd p pix)),
+      ("curvature_from_impl_tables", matToJson (Impl.curvatureFromPreloadP q p pix))]
+  | _, _ => pure ()
   pure (obj out)
 
 def mirrored : Op := fun j => do
